@@ -52,7 +52,7 @@ class _SinglePair:
   pass
 
 
-SUITE_KINDS = ('CallPairs', 'CallTransform')
+SUITE_KINDS = ('CallPairs', 'CallTransform', 'CallMatrix')
 
 
 def gen_trace(recipe):
@@ -125,7 +125,7 @@ def run(ctx):
               '(17 estimators x sampled options x query kind {integer, training, random off-grid} x preprocessor kind), '
               '8 query pairs incl. identical points, 8-10 representations each; distinct by (estimator, options, '
               'query kind, preprocessor kind); non-trivial when components_ is non-zero. Plus: every outermost public call '
-              '(pair_distance/pair_score/score_pairs/decision_function/transform) made by the repository\'s own tests '
+              '(pair_distance/pair_score/score_pairs/decision_function/transform/get_mahalanobis_matrix) made by the repository\'s own tests '
               '(5 test files, recorded by a pytest plugin) validated against the same definitions')
   c01.model_phase(ctx)
   pairs = core.generate(MOD, recipes(ctx))
